@@ -193,6 +193,8 @@ class ConvexSpheropolygon(Shape2D):
         For more general information about this calculation, see
         `Shape.distance_to_surface`.
         """
+        # The angular ranges of the rounded corners below are in [0, 2*pi).
+        angles = np.mod(angles, 2 * np.pi)
         num_verts = self.num_vertices
         verts = self._polygon.vertices[:, :2] - self._polygon.centroid[:2]
 
